@@ -388,3 +388,32 @@ PROPS["C20"] = pbt(
             "fault_dangling_symlink|layered_read": 0.08, "fault_vanished_in_callback|layered_read": 0.08,
             "fault_foreign_owner|layered_read": 0.08},
 )
+
+PROPS["C04"] = pbt(
+    "pbt_c04", "pbt_c04.cpp",
+    fuzzers=[
+        {"name": "fuzz_c04_bytes", "define": "VF_FUZZ_BYTES", "max_len": 4096, "dict": "dict/econf.dict", "corpus": "corpus/c04"},
+        {"name": "fuzz_c04_struct", "define": "VF_FUZZ_STRUCT", "max_len": 2048, "dict": None, "corpus": None},
+    ],
+    rule=("three generators feed one walk(): (i) libFuzzer byte-level target (4 header bytes select delimiter set out of "
+          "10, comment set out of 5, option set {none, JOIN, PYTHON, both}, split point into two files; dictionary; "
+          "seed corpus = the repository's test data files + saved regressions), (ii) libFuzzer structure-aware target "
+          "(the bytes drive the near-grammar decoder: conventional file + line edits), (iii) rapidcheck near-grammar "
+          "mutator (conventional file with 0-3 edits: delete/duplicate/swap a line, insert or delete structural "
+          "characters, odd lines, truncation, NUL byte, foreign delimiter sets; or raw byte strings). walk(): read "
+          "(plain or through an options object), list everything, all 8 typed + 8 defaulted getters + extended getter "
+          "on every listed key and two absent ones, read the same bytes again (determinism), write and re-read, parse "
+          "a second file, merge both ways, walk and write the results, check the inputs are unchanged; ASan+UBSan+LSan; "
+          "every return code within enum econf_err; failed read => no object. evaluations = inputs executed by all "
+          "three engines; non-trivial = parsed with >=1 entry or rejected with a parse error; distinct = hash of input "
+          "bytes + parameters (rapidcheck part; libFuzzer inputs are counted by its own corpus/feature counters)"),
+    technique="coverage-guided fuzzing (libFuzzer, byte-level + structure-aware) and property-based near-grammar mutation (rapidcheck) with invariants inside the target",
+    level_text=("fuzzing with semantic invariants inside the target (documented return codes, no object after a failed "
+                "read, NULL-terminated lists, determinism, inputs of a merge unchanged) under ASan/UBSan/LSan. Quick: "
+                "corpus replay + 2 targets x 4 processes x 40k runs + 64k near-grammar cases; thorough: 2 x 8 x 2M runs "
+                "+ 3M near-grammar cases."),
+    level_note="libFuzzer campaigns are only approximately reproducible from a seed; the saved artifact is the reproducible unit. Timeouts count only if reproducible at 10x the limit.",
+    quick={"cases": 64000, "fuzz_runs": 40000, "fuzz_jobs": 4},
+    thorough={"cases": 3000000, "fuzz_runs": 2000000, "fuzz_jobs": 8},
+    floors={"parsed_with_entries": 0.40, "rejected_with_parse_error": 0.05, "merged_pair": 0.15, "edited": 0.30},
+)
